@@ -6,7 +6,7 @@ class C09(Prop):
     id = "C09"
     harness = "c09"
     props_file = "Properties/C09.v"
-    coq_modules = ["Funnel/Check.v", "Funnel/V1.v"]
+    coq_modules = ["Funnel/Check.v", "Funnel/V1.v", "Funnel/Par.v"]
     level = "proof"
     rule = ("malformed-first stream over whole passes of the real funnel.Worker: literal plugin result vectors of "
             "any length (0, <, =, > the input), any kind mix, conditional processors (every match pattern for "
@@ -40,12 +40,14 @@ class C09(Prop):
             cond = [["--mode", "cond:%d:2" % i] for i in range(2)]
             v1 = [["--mode", "v1:%d:3" % i, "--seed", str(seed), "--n", "60"] for i in range(3)]
             dest = [["--mode", "dest:%d:2" % i] for i in range(2)]
-            return rnd + cond + dest + v1
+            par = [["--mode", "par:%d:2" % i, "--seed", str(seed), "--n", "60"] for i in range(2)]
+            return rnd + cond + dest + v1 + par
         rnd = [["--seed", str(seed), "--n", "2500"] for _ in range(NCPU)]
         cond = [["--mode", "cond:%d:%d" % (i, NCPU)] for i in range(NCPU)]
         v1 = [["--mode", "v1:%d:8" % i, "--seed", str(seed), "--n", "100"] for i in range(8)]
         dest = [["--mode", "dest:%d:%d" % (i, NCPU)] for i in range(NCPU)]
-        return rnd + cond + dest + v1
+        par = [["--mode", "par:%d:8" % i, "--seed", str(seed), "--n", "600"] for i in range(8)]
+        return rnd + cond + dest + v1 + par
 
     def search_shards(self, tier, seed, round_no):
         return [["--seed", str(seed + 7919 * (round_no + 1) + k), "--n", "150"] for k in range(NCPU)]
